@@ -170,7 +170,8 @@ def r4(ctx):
     want = App(fast.qualname, (pt, Attr(cl, "stacked_data_mean"), Attr(cl, "inverse_covariance"), Attr(cl, "log_determinant"), W, N))
     ctx.check(rt == want, pl, "the wrapper feeds the cluster's mean, inverse_covariance and log_determinant to the scalar kernel in order",
               role="wrapper", expected=str(want), found=str(rt)[:200])
-    fi = ana.func("main_loop._compute_log_likelihood_by_cluster")
+    from .c06 import per_cluster_helper
+    fi = per_cluster_helper(ana)
     bb = ana.builder(fi, no_inline=ana.known)
     data, m = Sym(fi.params[0]), Sym(fi.params[1])
     appends = [n for n in Resolver.walk_own(fi.node) if isinstance(n, ast.Call) and isinstance(n.func, ast.Attribute) and n.func.attr == "append"]
